@@ -12,7 +12,7 @@ __all__ = ["spoiler"]
 _BLOCK_SPOILER_START = re.compile(r"^ {0,3}! ?", re.M)
 _BLOCK_SPOILER_MATCH = re.compile(r"^( {0,3}![^\n]*\n)+$")
 
-INLINE_SPOILER_PATTERN = r">!\s*(?P<spoiler_text>.+?)\s*!<"
+INLINE_SPOILER_PATTERN = r">!\s*(?P<spoiler_text>\S.*?)\s*!<"
 
 
 def parse_block_spoiler(block: "BlockParser", m: Match[str], state: "BlockState") -> int:
